@@ -335,11 +335,11 @@ class QLCParser(object):
                 self._data[key].append(res)
 
         # check for override stuff, this causes otherwise an error message
-        if entry not in self.header and override:
+        if lentry not in self._header and override:
             return self.add_entries(entry, source, function, override=False)
 
         # check whether the stuff is already there
-        if entry in self._header and not override:
+        if lentry in self._header and not override:
             if confirm(
                 "Column <{entry}> already exists, do you want to override?".format(
                     entry=entry)):
